@@ -336,8 +336,12 @@ async fn run_case(case: &Case, srv: Srv, out: &mut Out) {
                 g.trace.push(format!("Step {} {:?}{}", si, step, if fast { " (churn)" } else { "" }));
             }
         }
-        if let Some(v) = lock(&srv).repeated_ping.clone() {
-            fail!("ping-value-reused", "PING {:?} was sent although that value had already been used on this pool ({} recycles so far)", v, lock(&srv).pings_seen.len());
+        let repeated = {
+            let g = lock(&srv);
+            g.repeated_ping.clone().map(|v| (v, g.pings_seen.len()))
+        };
+        if let Some((v, n)) = repeated {
+            fail!("ping-value-reused", "PING {:?} was sent although that value had already been used on this pool ({} recycles so far)", v, n);
         }
         macro_rules! settle {
             () => {
@@ -489,7 +493,8 @@ async fn run_case(case: &Case, srv: Srv, out: &mut Out) {
             Err(_) => fail!("capacity-probe", "the pool could not hand out its full capacity at the end: get() hung"),
         }
     }
-    if let Some(v) = lock(&srv).repeated_ping.clone() {
+    let repeated = lock(&srv).repeated_ping.clone();
+    if let Some(v) = repeated {
         fail!("ping-value-reused", "PING {:?} was sent although that value had already been used on this pool", v);
     }
     if churned >= 10 {
